@@ -124,7 +124,8 @@ WorldSpec gen_world(const std::string& prop, uint64_t run_seed, const GenOpts& o
                                 {M_BLOCKDIAG, want_breakdown ? 2.0 : 0.7}, {M_LOWRANK, want_breakdown ? 1.5 : 0.4}});
     if (w.family == F_HERM && w.mclass == M_SPARSEPAT) w.mclass = M_RANDOM;
     // buckling: K_G = B must be nonsingular for the pencil to have finite eigenvalues only
-    if (w.family == F_GBUCK && w.mclass == M_LOWRANK) w.mclass = M_SEPARATED;
+    // (a graded K_G has eigenvalues down to 1e-8: the back-transformation sigma*nu/(nu-1) then returns inf)
+    if (w.family == F_GBUCK && (w.mclass == M_LOWRANK || w.mclass == M_GRADED)) w.mclass = M_SEPARATED;
     if (w.mclass == M_LOWRANK) w.rank = 1 + (int) r.below((uint64_t) std::max(1, w.ncv - 1));
     if (w.mclass == M_BLOCKDIAG) w.nblock = 2 + (int) r.below((uint64_t) std::max(1, std::min(w.ncv - 1, w.n - 1) - 1));
     // the shift families factorize A - sigma*(I|B); keep A generic enough for a well-defined shift
